@@ -7,6 +7,14 @@ sys.path.insert(0, HERE)
 os.environ.setdefault('PRETTYPRINTER_VERIF', '1')
 os.environ.setdefault('PYTHONHASHSEED', '0')
 
+# For the self-tests only (seeded breaking changes live in scratch worktrees): VERIF_REPO points
+# at an alternative checkout of the package. The registered commands never set it: they run
+# against /repo, which /venv imports by default.
+REPO = os.environ.get('VERIF_REPO')
+if REPO:
+    sys.path.insert(0, REPO)
+    os.environ['PYTHONPATH'] = REPO + os.pathsep + os.environ.get('PYTHONPATH', '')
+
 import common  # noqa
 
 REGISTRY = {
